@@ -1,7 +1,9 @@
 (* Properties/C14.v - Content decoding returns the original payload or leaves the response alone.
    Only statements, `exact`, and Print Assumptions.  Model: Model/Decode.v (the three call sites
-   transport.go readLoop / http2 handleResponse / http3 ReadResponse after fixes 4ac0921, b03ea4e;
-   compress.NewCompressReader with its switch labels regenerated into Gen/CompressLabels.v).
+   transport.go readLoop / http2 handleResponse / http3 ReadResponse after fixes 4ac0921, b03ea4e,
+   c31eb6d; compress.NewCompressReader with its switch labels regenerated into Gen/CompressLabels.v)
+   and Model/DecodeSession.v (several response bodies alive at once: heap of decompressor objects,
+   interleaved ReadFull/Close operations; allocation discipline tied to Gen/CompressReaders.v).
    The codecs are universally quantified functions with the single hypothesis
    `dec e (compress e p) = (p, EOF)`. *)
 From ReqV Require Import Lib.Bytes Gen.CompressLabels Gen.CompressReaders Model.Decode Model.DecodeSession
